@@ -34,7 +34,7 @@ def gen_call(tape, pool_size, term_of, ctx_symbols, richgen, ctx, exclude=()):
              (1, "model_value"), (1, "parse_smtlib"), (1, "parse_hr"), (1, "qelim")]
     kinds = kinds + [(2, "substitute_shared"), (2, "parse_long"), (2, "foreign"), (1, "script_serialize"),
                      (2, "resimplify"), (2, "model_value_shared"), (1, "factory"), (1, "register_dwf"),
-                     (1, "declare_freshlike"), (1, "serialize_custom"), (1, "odd_constant")]
+                     (1, "declare_freshlike"), (1, "serialize_custom"), (1, "odd_constant"), (1, "lookalike_array")]
     kinds = [(w, n) for w, n in kinds if n not in exclude]
     k = tape.weighted(kinds, "call.kind")
     i = tape.draw(pool_size, "call.formula")
@@ -65,6 +65,10 @@ def gen_call(tape, pool_size, term_of, ctx_symbols, richgen, ctx, exclude=()):
         # the user declares (if it does not exist yet) a symbol whose name a fresh-name template
         # could produce later
         spec["name"] = "FV%d" % tape.rint(2, 9, "freshlike.n")
+    if k == "lookalike_array":
+        # array types over a user sort that is merely named like a built-in sort, and over that built-in sort
+        spec["which"] = tape.choice(["user", "builtin"], "lookalike.which")
+        spec["name"] = tape.choice(["Int", "Real", "Bool"], "lookalike.name")
     if k == "odd_constant":
         # a number given in a Python type the constructor does not accept (or does it?): the answer
         # must not depend on whether an equal constant happens to exist already
@@ -196,6 +200,16 @@ def perform(env, spec, f, term, user_symbols):
             v = bool(v)         # floats and Fractions are documented spellings of a Real
         c = getattr(mgr, spec["ctor"])(v)
         return ["constant", str(c.get_type()), str(c.constant_value()), type(c.constant_value()).__name__]
+    if k == "lookalike_array":
+        import pysmt.typing as T
+        from dsim.canon import tkey
+        tm = env.type_manager
+        builtin = {"Int": T.INT, "Real": T.REAL, "Bool": T.BOOL}[spec["name"]]
+        elem = tm.Type(spec["name"], 0) if spec["which"] == "user" else builtin
+        at = tm.ArrayType(T.REAL, elem)
+        sym = mgr.Symbol("la_%s_%s" % (spec["which"], spec["name"]), at)
+        sel = mgr.Select(sym, mgr.Real(1))
+        return ["array-type", tkey(at), tkey(at.elem_type), tkey(env.stc.get_type(sel))]
     if k == "register_dwf":
         return register_dwf(env, spec)
     if k == "declare_freshlike":
